@@ -26,7 +26,7 @@ def run_one(m, with_tests=False):
             t = t.replace(ed["old"], ed["new"], ed.get("count", 1))
             open(p, "w").write(t)
         res = {"id": m["id"], "props": {}}
-        env = dict(os.environ, VERIF_REPO=dst, VERIF_EVIDENCE_DIR=os.path.join(tmp, "ev"))          # evidence of a mutated tree is scratch
+        env = dict(os.environ, VERIF_REPO=dst, VERIF_EVIDENCE_DIR=os.path.join(tmp, "ev"), VERIF_FACTS_KEEP="48")          # evidence of a mutated tree is scratch
         if with_tests:
             r = subprocess.run(["cargo", "test", "--workspace", "--no-fail-fast", "--offline"], cwd=dst, env=dict(os.environ, CARGO_TARGET_DIR=os.path.join(tmp, "t")),
                                stdout=subprocess.PIPE, stderr=subprocess.STDOUT, text=True)
